@@ -23,6 +23,7 @@ pub enum LineKind {
     LabelInst,
     Label,
     DataWords,
+    DataFloats,
     Asciz,
     Comment,
     Blank,
@@ -43,11 +44,12 @@ pub enum LineKind {
     BadLabelOperand,
     BadStringOperand,
 }
-pub const KINDS: [LineKind; 23] = [
+pub const KINDS: [LineKind; 24] = [
     LineKind::Inst,
     LineKind::LabelInst,
     LineKind::Label,
     LineKind::DataWords,
+    LineKind::DataFloats,
     LineKind::Asciz,
     LineKind::Comment,
     LineKind::Blank,
@@ -98,6 +100,7 @@ impl LineKind {
             LineKind::LabelInst => "label+inst",
             LineKind::Label => "label",
             LineKind::DataWords => "data-words",
+            LineKind::DataFloats => "data-floats",
             LineKind::Asciz => "asciz",
             LineKind::Comment => "comment",
             LineKind::Blank => "blank",
@@ -126,6 +129,7 @@ impl LineKind {
             LineKind::LabelInst => format!("lbl{i}: add t1, t1, t0"),
             LineKind::Label => format!("lone{i}:"),
             LineKind::DataWords => "    .word 1, 2".into(),
+            LineKind::DataFloats => "    .float 1.5, 2".into(),
             LineKind::Asciz => "    .asciz \"hi\"".into(),
             LineKind::Comment => "    # just a comment".into(),
             LineKind::Blank => String::new(),
@@ -650,7 +654,7 @@ impl Property for C07 {
     }
     fn info(&self, tier: Tier) -> Info {
         Info {
-            rule: "all files of 1..m lines over 17 line kinds (instruction, label+instruction, label, .word list, .asciz, comment, blank, character literal; wrong operand kind, missing operand, unknown mnemonic, stray '(', stray '@', non-ASCII word, unterminated string, unclosed character literal, invalid character escape) x {LF, CRLF} x {final newline, none} x {one file, tail in an included file}; coverage: every line with content is the line (by raw offset, via the harness's locator) of a node or a parse error and good lines draw no error; containment: deleting a bad line leaves the nodes/errors of every other line unchanged. Non-trivial = files with at least one bad and one good content line".into(),
+            rule: "all files of 1..m lines over 24 line kinds (instruction, label+instruction, label, .word list, .float list, .asciz, comment, blank, character literal; wrong operand kind, missing operand, unknown mnemonic, stray '(', stray '@', non-ASCII word, unterminated string, unclosed character literal, invalid character escape) x {LF, CRLF} x {final newline, none} x {one file, tail in an included file}; coverage: every line with content is the line (by raw offset, via the harness's locator) of a node or a parse error and good lines draw no error; containment: deleting a bad line leaves the nodes/errors of every other line unchanged. Non-trivial = files with at least one bad and one good content line".into(),
             bounds: json!({"max_lines": self.space(tier).max, "line_kinds": 17, "variants_per_sequence": 8}),
             assumptions: vec!["lines are attributed through raw offsets, so the line/column defects of C09 do not contaminate this check".into()],
             states_counter: "cases",
